@@ -1273,6 +1273,10 @@ def m_to_string(ex, m, args, callee):
         return t
     if isinstance(t, Opaque):
         return t
+    if isinstance(t, Struct) and t.name == 'BaseUnit':
+        ident = deref_all(t.fields[0])            # Display for BaseUnit writes its id
+        if isinstance(ident, (str, SymStr)):
+            return ident
     if isinstance(t, Enum) and not t.fields:
         return '<%s::%s>' % (t.ty, t.vname)      # stands for the Display text of a field-less enum (unique per variant)
     if isinstance(t, int) and not isinstance(t, bool) and re.match(r'^<(u|i)(8|16|32|64|128|size) as ToString>', m.group(0) or ''):
